@@ -12,8 +12,9 @@ Three Hypothesis parts over ``tornado.httputil.parse_body_arguments`` /
   variations).  The boundary is chosen **after** the body is built: a generated seed is extended until
   it occurs in the encoded body exactly once per delimiter, so it occurs nowhere in the content even
   though the content is full of ``--``, CRLF and boundary-like text.  Oracle: ``arguments`` and
-  ``files`` equal the form exactly (values in order per name; filename/body/content_type exact; no
-  extra keys), through both entry points, also when the dictionaries were pre-populated.  Then the
+  ``files`` equal the form exactly (values in order per name; filename/body/content_type exact — for a file
+  part sent without a Content-Type header the expected ``content_type`` is what the same part yields as
+  the only part of a body, i.e. it may not depend on its siblings; no extra keys), through both entry points, also when the dictionaries were pre-populated.  Then the
   same body is re-parsed with ``ParseMultipartConfig`` limits around its own part count ``k`` and
   header size ``h``: ``max_parts < k`` must be rejected, ``max_parts >= k`` accepted;
   ``max_part_header_size < h`` rejected, ``>= h+4`` accepted (``h`` = bytes of the header lines
@@ -47,6 +48,10 @@ Sensitivity (quick tier, seed 1, one mutant at a time on a scratch copy):
   * ``_parse_header`` final quote-strip guard ``len(value) >= 2 and ...`` -> ``value and ...`` (a value
     that is exactly one ``"`` becomes empty: field rejected as 'missing name', file turned into an
     argument) ............................................................ caught (C30.multipart_exact[.rejected])
+
+  * ``"application/unknown"`` default hoisted out of the per-part loop (a file without Content-Type
+    that follows a typed file inherits the earlier file's type) .......... caught (C30.multipart_exact;
+    label ``untyped_file_after_typed_file``)
 
 Open findings on the current tree (known_findings.d/C30.json, write-ups in findings_inbox/):
   * F-C30-max-parts-off-by-one: a body with exactly ``max_parts`` parts is rejected (the empty text
@@ -155,7 +160,8 @@ _item_opts = st.fixed_dictionaries({
 })
 
 _field = st.tuples(st.just("field"), _name(), _value, _item_opts)
-_file = st.tuples(st.just("file"), _name(), _name(), st.sampled_from(CTYPES), _value, _item_opts)
+# None = the part carries no Content-Type header; weighted so that typed and untyped files mix in every order
+_file = st.tuples(st.just("file"), _name(), _name(), st.sampled_from(CTYPES + [None, None, None]), _value, _item_opts)
 _either_item = st.one_of(
     st.tuples(st.just("field"), st.just(""), _value, _item_opts),
     st.tuples(st.just("file"), _name(), st.just(""), st.sampled_from(CTYPES), _value, _item_opts),
@@ -479,6 +485,25 @@ def classify(case):
     return either, finding, labels
 
 
+def solo_content_type(case, it):
+    """content_type Tornado reports for file part `it` when it is the ONLY part of a body.  The default
+    for a part without a Content-Type header is coded, not documented, so its value is not asserted;
+    what "recovers exactly those files" does require is that it cannot depend on the sibling parts."""
+    opt = dict(case["opt"], tail="\r\n", prepop=False)
+    built = build({"enc": "multipart", "items": [it], "opt": opt})
+    if built is None:
+        return None
+    a, f = {}, {}
+    try:
+        parse_body_arguments(built[0], built[1], a, f)
+    except HTTPInputError:
+        return None
+    got = [x for fs in f.values() for x in fs]
+    if len(got) != 1 or not isinstance(got[0].content_type, str):
+        return None
+    return got[0].content_type
+
+
 def expected(case):
     args, files = {}, {}
     for it in case["items"]:
@@ -490,7 +515,8 @@ def expected(case):
             names = {it[2]}
             if effective_style(it[2], o["fstyle"]) == "ext_fallback":
                 names.add("fallback.bin")
-            files.setdefault(it[1], []).append((names, it[3], it[4]))
+            ctype = it[3] if it[3] is not None else solo_content_type(case, it)
+            files.setdefault(it[1], []).append((names, ctype, it[4]))
     return args, files
 
 
@@ -525,6 +551,19 @@ def run_form(ctx, case):
         labels.add("quoted_boundary")
     if nontrivial:
         labels.add("file_with_crlf_or_dashes")
+    if case["enc"] == "multipart":
+        seen_typed = False
+        for it in case["items"]:
+            if it[0] != "file":
+                continue
+            if it[3] is None:
+                labels.add("untyped_file")
+                if seen_typed:
+                    labels.add("untyped_file_after_typed_file")
+            else:
+                seen_typed = True
+                if "untyped_file" in labels:
+                    labels.add("typed_file_after_untyped_file")
     if len(case["items"]) == 0:
         labels.add("empty_form")
     if len({it[1] for it in case["items"]}) < len(case["items"]):
